@@ -201,6 +201,8 @@ pub fn scenarios(tier: &str) -> Vec<Scenario> {
     }
     {
         let small = small.clone();
+        // balance and supply answers after operations that FAILED having asked in between (seed C09f)
+        v.push(Scenario::new("queries_agree_after_rolled_back_operations", &["rolled_back"], crate::c10::rolled_back_queries));
         v.push(Scenario::new("two_steps_small_shapes", &["some_ok", "some_err"], move || {
             // positive initial balances: zero/absent entries are produced by the first step
             let mut w = setup(false);
